@@ -203,7 +203,8 @@ class GeneInterval(AbstractFeatureIntervalCollection):
         return FeatureInterval(
             interval_starts=interval_starts,
             interval_ends=interval_ends,
-            strand=self.chunk_relative_location.strand,
+            # the chromosome-level strand: the chunk-relative location is empty when nothing of this gene lies on its chunk
+            strand=self.strand,
             qualifiers=self._export_qualifiers_to_list(),
             sequence_guid=self.sequence_guid,
             sequence_name=self.sequence_name,
